@@ -7,8 +7,9 @@ PID = 'C03'
 STATS = G.STATS
 TOL_SPAN = F(1, 100000)
 PARTIAL = [
-    "findSpanBin_eq_linear: not yet proved in Lean (binary search is compared with the model and with linear search by the exact oracle only)",
-    "basisFunOne_eq / ders_sum_zero / basisFunsDers_correct (A2.3, A2.4, A2.5 = derivatives of Cox-de Boor): A2.3 is compared with the model's A3.3-based derivative (proved for order 1 in C02); A2.4/A2.5 by oracle only",
+    "A2.4 / A2.5 (basis_function_one, basis_function_ders_one) = Cox-de Boor and its derivatives: by exact oracle + correspondence (A2.4) only",
+    "A2.3 is modelled at specification level (derivatives of the unit-control-point curves); that the code's table equals it is the exact correspondence; rows-sum-to-zero and row 0 = A2.2 are proved for the model",
+    "knot-vector generation / normalisation / check: model + correspondence + oracle, no Lean theorems yet",
 ]
 ASSUMPTIONS = ["distinct knots are further apart than the tolerances 1e-5 (binary search) / 1e-7 (multiplicity), except in the tolerance-probe stream"]
 
